@@ -63,6 +63,24 @@ pub fn rt_oracle(c: &Rt) -> Verdict {
             Err(m) => return Verdict::Fail(m),
         }
     }
+    // the identical elapsed time in another time scale, formatted right afterwards, is another date: its own round trip
+    {
+        let s2 = [S_GPST, S_ET, S_TAI, S_BDT, S_UTC, S_TT, S_QZSST, S_GST, S_TDB][c.s];
+        let e2 = Epoch::from_duration(mk(cnt), SCALES[s2]);
+        let txt2 = lib!(format!("{e2}"));
+        // (text of years outside 0001-9999 is not asserted to parse, as for the first epoch)
+        let y2 = greg_of_ns1900(cnt + greg_offset_ns(s2)).y;
+        if (1..=9999).contains(&y2) {
+        match parse_both(&txt2) {
+            Ok(Ok(p)) => ensure!(same(&p, &e2), "Display of {} count {} (right after the same count in {}) is {:?}, which parses to {} count {}", SCALE_NAMES[s2], cnt, SCALE_NAMES[c.s], txt2, SCALE_NAMES[scale_index(p.time_scale)], count(p.duration)),
+            Ok(Err(err)) => return Verdict::Fail(format!("Display text {:?} does not parse: {:?}", txt2, err)),
+            Err(m) => return Verdict::Fail(m),
+        }
+        }
+        // and the first epoch again
+        let again = lib!(format!("{e}"));
+        ensure!(again == texts[0].1, "Display of {} count {} changed from {:?} to {:?} after another epoch was formatted", SCALE_NAMES[c.s], cnt, texts[0].1, again);
+    }
     // serde
     match lib!(serde_json::to_string(&e)) {
         Ok(j) => {
